@@ -128,7 +128,7 @@ CLAIMED = {
              "components of curl(B/B^2) of the axisymmetric field for any psi and fpol (is_derive statements under the interpolant contract); grad(x) = grad(psi); the vector "
              "dotted for the y-component is the grad(y) DUAL to the grid (perpendicular to e_x, grad(y).e_y = 1) with tan(beta) as calcBeta computes it, orthogonal and "
              "non-orthogonal branch, both signs of Bp. On every spline-interpolated corpus grid curl_bOverB_x/y/z and bxcv* are compared with an independent evaluation "
-             "(own splines, Richardson differences, grad(y) from the grid's displacements); the two curvature_type formulations are compared on lsn / lsn_neg. The ingredients of the curvature (second derivatives of psi, dB*/d*, fpolprime, both interpolation methods, dR != dZ) are checked against Richardson differences in this check too, so that a wrong ingredient is reported with a concrete input.",
+             "(own splines, Richardson differences, grad(y) from the grid's displacements); the two curvature_type formulations are compared on lsn / lsn_neg. The ingredients of the curvature (second derivatives of psi, dB*/d*, fpolprime, both interpolation methods, dR != dZ) are checked against Richardson differences in this check too, so that a wrong ingredient is reported with a concrete input. The grid oracle also covers circular grids (analytic field from its definition alone; finding F31: dq/dr of the circular equilibrium, fixed), and the circular profile functions are modelled with exponent ranges regenerated from circular.py: dq/dr is the derivative of q for any number of coefficients, d2psi/dr2 the derivative of dpsi/dr for any q.",
         note="Trusted: Coq kernel + Reals/Coquelicot axioms; interpolant contract (FITPACK derivative evaluators); translator (validated in C18's run); agreement of the x-y "
              "formulation is checked by normalised correlation at one resolution (sign/scale), not by a convergence study; dct-interpolated grids skipped by the grid oracle.",
         technique="Coq proof (Coquelicot auto_derive + field) on translated formulas + independent grid oracle", design="6/C07"),
